@@ -35,11 +35,16 @@ META = {
     ],
 }
 
-# Work limit (sys.monitoring JUMP|BRANCH events inside solvor.cg / solvor.bp / solvor.utils.pricing).
-# Calibration on /repo (quick + thorough corpus): solve_cg max 0.9M events, solve_bp root-only max 1.0M,
-# solve_bp after branching (known-defective search, may crawl through 10 000 nodes or never stop): median 1M,
-# tail > 300M.  60M is >= 60x everything outside the known class and cuts the crawl after ~10 s.
-STEP_LIMIT = 60_000_000
+# Work limits (sys.monitoring JUMP|BRANCH events inside solvor.cg / solvor.bp / solvor.utils.pricing), DESIGN 2.4.
+# solve_cg: max observed on /repo 0.47M (quick) / 3.9M (thorough) events -> fixed limit >= 100x that; never reached.
+# solve_bp: the search after branching is the known-defective part (crawls through up to 10 000 nodes or does not
+# stop: 25 % of the branched calls need > 13M events, 15 % of all calls > 20M), so a fixed 100x limit would cost
+# ~100 s per hit.  The work of a *root-only* call (the only bp results outside the known class) is one column
+# generation, i.e. the work solve_cg does on the same instance (measured ratio <= 1.6, evidence size
+# 'bp-root-only-steps-per-100-cg-steps').  The bp limit is therefore set per case to 25x the events solve_cg needs
+# on the same input (floor 1M): deterministic, >= 15x everything outside the known class, and a hit costs ~0.3 s.
+STEP_LIMIT_CG = 400_000_000
+BP_FACTOR, BP_FLOOR = 25, 1_000_000
 
 USABLE = ("OPTIMAL", "FEASIBLE")
 
@@ -207,17 +212,46 @@ def judge(res, solver, n, demands, optimum, ctx, fits=None, pool=None, extra=Non
         raise Violation(f"{solver}:optimal-not-minimal", det)
 
 
-def _call(ctx, fn, *a, **kw):
-    """solvOR call under the deterministic step budget; StepBudgetExceeded propagates (=> inconclusive)."""
+def _instrument():
     from solvor import bp, cg
     from solvor.utils import pricing
 
     budget.instrument(cg, bp, pricing)
-    with budget.steps(STEP_LIMIT) as s:
-        res = ctx.call(fn, *a, **kw)
+    return cg, bp
+
+
+def _call_cg(ctx, *a, **kw):
+    """solve_cg under the deterministic step budget; StepBudgetExceeded propagates (=> inconclusive)."""
+    cg, _ = _instrument()
+    with budget.steps(STEP_LIMIT_CG) as s:
+        res = ctx.call(cg.solve_cg, *a, **kw)
+    ctx.size("steps-cg", s.count)
+    return res
+
+
+def _call_bp(ctx, mk_args):
+    """solve_bp under a step budget of BP_FACTOR x the work of solve_cg on the same input (see above).
+
+    mk_args() builds fresh (args, kwargs) for each of the two calls (the pricing callback is stateful)."""
+    cg, bp = _instrument()
+    a, kw = mk_args()
+    try:
+        with budget.steps(STEP_LIMIT_CG) as s0:
+            cg.solve_cg(*a, **kw)  # calibration only; solve_cg is judged by its own sub-checks
+        base = s0.count
+    except Exception:  # noqa: BLE001
+        base = 0
+    limit = max(BP_FLOOR, BP_FACTOR * base)
+    a, kw = mk_args()
+    with budget.steps(limit) as s:
+        res = ctx.call(bp.solve_bp, *a, **kw)
     it = getattr(res, "iterations", 0)
-    kind = "cg" if fn.__name__ == "solve_cg" else ("bp-branched" if isinstance(it, int) and it > 0 else "bp-root-only")
-    ctx.size("steps-" + kind, s.count)
+    if isinstance(it, int) and it > 0:
+        ctx.size("steps-bp-branched", s.count)
+    else:
+        ctx.size("steps-bp-root-only", s.count)
+        ctx.size("bp-root-only-steps-per-100-cg-steps", (100 * s.count) // max(1, base))
+        ctx.size("bp-root-only-steps-per-100-limit", (100 * s.count) // limit)
     return res
 
 
@@ -247,18 +281,14 @@ def _cs_case(desc, ctx):
 
 
 def run_cg(desc, ctx):
-    from solvor.cg import solve_cg
-
     n, sizes, demands, optimum, dem_arg, args, extra, W = _cs_case(desc, ctx)
-    res = _call(ctx, solve_cg, dem_arg, **args)
+    res = _call_cg(ctx, dem_arg, **args)
     judge(res, "cg", n, demands, optimum, ctx, fits=lambda p: CS.fits(p, W, sizes), extra=extra)
 
 
 def run_bp(desc, ctx):
-    from solvor.bp import solve_bp
-
     n, sizes, demands, optimum, dem_arg, args, extra, W = _cs_case(desc, ctx)
-    res = _call(ctx, solve_bp, dem_arg, **args)
+    res = _call_bp(ctx, lambda: ((dem_arg,), args))
     judge(res, "bp", n, demands, optimum, ctx, fits=lambda p: CS.fits(p, W, sizes), extra=extra)
 
 
@@ -307,17 +337,24 @@ def _custom_case(desc, ctx):
 
 
 def _run_custom(desc, ctx, solver):
-    if solver == "cg":
-        from solvor.cg import solve_cg as fn
-    else:
-        from solvor.bp import solve_bp as fn
     pool, demands, m, optimum, pricing, init, state, extra = _custom_case(desc, ctx)
+
+    def mk_args():
+        state.update(calls=0, improving=0)
+        return (list(demands),), dict(pricing_fn=pricing, initial_columns=[type(c)(c) for c in init])
+
     try:
-        res = _call(ctx, fn, list(demands), pricing_fn=pricing, initial_columns=init)
+        if solver == "cg":
+            a, kw = mk_args()
+            res = _call_cg(ctx, *a, **kw)
+        else:
+            res = _call_bp(ctx, mk_args)
     except Crash:
         if state["err"] is not None:
             raise _CallbackBug(repr(state["err"])) from state["err"]
         raise
+    if state["err"] is not None:
+        raise _CallbackBug(repr(state["err"])) from state["err"]
     ctx.label(state["improving"] > 0 and "pricing-added-columns")
     ctx.size("pricing-calls", state["calls"])
     judge(res, solver, m, demands, optimum, ctx, pool=set(pool), extra=extra)
@@ -344,7 +381,7 @@ KNOWN_CLASSES = {"bp-after-branching": bp_after_branching}
 
 SUBS = [
     Sub("cg_cutting_stock", run_cg, strategy=lambda tier: instances(tier), quick=450, thorough=3000, workers_quick=4, crash="inconclusive"),
-    Sub("bp_cutting_stock", run_bp, strategy=lambda tier: instances(tier), quick=450, thorough=3000, workers_quick=4, crash="inconclusive"),
+    Sub("bp_cutting_stock", run_bp, strategy=lambda tier: instances(tier), quick=300, thorough=1500, workers_quick=6, crash="inconclusive"),
     Sub("cg_custom_pricing", run_cg_custom, strategy=lambda tier: pools(tier), quick=300, thorough=2000, workers_quick=2, crash="inconclusive"),
-    Sub("bp_custom_pricing", run_bp_custom, strategy=lambda tier: pools(tier), quick=300, thorough=2000, workers_quick=2, crash="inconclusive"),
+    Sub("bp_custom_pricing", run_bp_custom, strategy=lambda tier: pools(tier), quick=250, thorough=1500, workers_quick=4, crash="inconclusive"),
 ]
